@@ -44,6 +44,10 @@ def validation_runs():
     alphabet = su._ALPHABET
     malformed = ['', 'a', '2' * 21, '2' * 23, '0' * 22, 'l' * 22, 'I' * 22, 'O2' * 11, ' ' * 22, '2' * 21 + '\n',
                  'zzzzzzzzzzzzzzzzzzzzzz', 'é' * 22, '2' * 21 + '1']
+    # valid forms with surrounding white space are "any other string": rejected by both entry points
+    for good in ('hfDoPxAatD8tiFaSAL3oXh', '2' * 22, 'de22bbe0-43bf-448d-9b83-2ee57e663285'):
+        for pad in (' ', '\t', '\n', '\r\n', '\x0b', '\u00a0', '\u2003'):
+            malformed += [pad + good, good + pad, pad + good + pad]
     for _ in range(300):
         k = rnd.choice([21, 22, 22, 22, 23, 5])
         malformed.append(''.join(rnd.choice(alphabet + ['0', '1', 'l', 'I', 'O', '-', '_']) for _ in range(k)))
@@ -52,6 +56,12 @@ def validation_runs():
         ok = len(s) == 22 and all(c in su._INDEX_ALPHABET for c in s)
         val = sum(su._INDEX_ALPHABET[c] * 57 ** i for i, c in enumerate(s)) if ok else None
         for fn in (su.uuid_from_short_str, su.uuid_from_str):
+            if fn is su.uuid_from_str and not ok:
+                try:
+                    uuid.UUID(s)
+                    continue        # a canonical form the library itself accepts (e.g. with braces): not malformed
+                except ValueError:
+                    pass
             try:
                 r = fn(s)
                 if not ok or val >= 2 ** 128 or r.int != val:
